@@ -170,7 +170,18 @@ pub fn gen_case(prop: &str, seed: u64, idx: u64, tier: &str) -> AnyCase {
     let p = profile_for(prop);
     let mut case = gen::gen_pipe_case(&mut rng, &p);
     if case.kind == Kind::Bed && rng.chance(1, 3) {
-        case.autosql = Some(rng.pick(SCHEMAS).to_string());
+        case.autosql = Some(if rng.chance(1, 2) {
+            rng.pick(SCHEMAS).to_string()
+        } else {
+            // grammar-based schema (simple/object/table, sized arrays, enum/set, index/unique/primary/auto)
+            let nf = rng.range(3, 15) as usize;
+            crate::textsim::gen_schema_tokens(&mut rng, nf).join(" ")
+        });
+    }
+    if matches!(prop, "C01" | "C02" | "C06" | "C09") && rng.chance(1, 25) {
+        // thread count is part of the option space: a share of the runs uses a real multi-thread runtime
+        // (uncontrolled; the oracle - exact read-back - does not depend on the schedule)
+        case.mt_threads = rng.range(1, 16) as u8;
     }
     AnyCase::Pipe(case)
 }
@@ -273,7 +284,18 @@ pub fn run_case(prop: &str, case: &AnyCase) -> RunReport {
                 _ => Verdict::Skip(format!("no oracle for {}", prop)),
             };
             let nontrivial = sections_of(pc) >= 2;
+            let verdict = match verdict {
+                Verdict::Violation { class, detail } if pc.mt_threads > 0 => Verdict::Violation {
+                    class: format!("{}-uncontrolled", class),
+                    detail,
+                },
+                v => v,
+            };
             let mut stats = pipe_stats(pc, &out);
+            if pc.mt_threads > 0 {
+                stats.uncontrolled = true;
+                stats.counters.insert("uncontrolled_runs(multi_thread_runtime)".into(), 1);
+            }
             if py {
                 stats.counters.insert("images_judged_by_python_decoder".into(), 1);
             }
